@@ -13,11 +13,16 @@
                  `_branch_target_hook` when a node is added; one cache for the whole closure group
     windex       `WorldIndex`  (w1, w2) pairs of the access nodes added
     unserial     `UnserialWorlds`
+    ncs          `NodeConsts` of the each-constant (`ExtendedQuantifierRule`) rules: per registered (rule, node) the constants
+                 not yet applied; `after_node_add` registers a node that passes the rule's filter with the constants seen so
+                 far and then distributes the constants the new node brings to EVERY registered node
     lastSerial   what `Serial._last_serial_world` finds: the most recent history entry whose target branch is THIS branch — if it
                  was a Serial application, the world it introduced (a branch created by a fork has no entry of its own)
   per tableau (`SState`):
     garbage r    `FilterNodeCache._garbage` — (branch, node) entries queued by `release()`, removed by `gc()`
     maxWorlds    `MaxWorlds[origin]`, computed from the trunk (`MaxWorlds._compute`)
+    maxConsts    `MaxConsts[origin]` (`MaxConsts._compute`); `WorldConsts` (constants per world) and `NodeConsts.consts`
+                 (constants seen) are functions of the branch (`constsAt`, `Branch.constList`)
   Scores (`NodeCount`, `AplSentCount`, `closure_score`, `branching_complexity`) only rank targets and are not
   modelled: any target may be taken.  Nodes are identified by their index on the branch (Python: object identity;
   a branch copy shares the node objects of its parent = the common prefix).  Executable, core only.
@@ -86,12 +91,16 @@ structure BranchH where
   closeT : Option CloseT := none
   windex : List (Nat × Nat) := []
   unserial : List Nat := []
+  ncs : List ((RuleKey × Nat) × List (Nat × Nat)) := []
   lastSerial : Option Nat := none
   deriving Inhabited, Repr
 
 def BranchH.cache (h : BranchH) (r : RuleId) : List Nat := aget [] h.caches r
 def BranchH.nw (h : BranchH) (k : RuleKey) : List (Nat × Nat) := aget [] h.nws k
 def BranchH.quit (h : BranchH) (k : RuleKey) : Bool := aget false h.quits k
+/-- `NodeConsts[branch][node]` of rule k (a registered node has an entry) -/
+def BranchH.nc (h : BranchH) (k : RuleKey) (i : Nat) : List (Nat × Nat) := aget [] h.ncs (k, i)
+def BranchH.ncRegistered (h : BranchH) (k : RuleKey) (i : Nat) : Bool := h.ncs.any fun p => p.1 == (k, i)
 
 /-- the rules whose filter a node passes -/
 def matching (nd : Node) : List RuleId :=
@@ -111,6 +120,62 @@ def exceeded (mw : Nat) (b : Branch) : Bool := decide (mw < (realWorlds b).lengt
 /-- `Branch.new_world()` = `_nextworld`: one above the largest world appended so far (0 on a branch without worlds) -/
 def nextWorld (b : Branch) : Nat :=
   b.worlds.foldl (fun m w => max m (w + 1)) 0
+
+/-! ### constants (`Branch.new_constant`, `WorldConsts`, `MaxConsts`) -/
+
+/-- order of constants: by (subscript, index) -/
+def constLt (a b : Nat × Nat) : Bool := a.2 < b.2 || (a.2 == b.2 && a.1 < b.1)
+/-- `CoordsItem.next()` with `maxi = 3` -/
+def constNext (c : Nat × Nat) : Nat × Nat := if c.1 < 3 then (c.1 + 1, c.2) else (0, c.2 + 1)
+def constMax (c : Nat × Nat) (cs : List (Nat × Nat)) : Nat × Nat := cs.foldl (fun m x => if constLt m x then x else m) c
+
+/-- `Branch.new_constant()` = `_nextconst` after the appends so far (`Branch.append`: `if max(cons) >= _nextconst: _nextconst =
+    max(cons).next()`), the same recurrence as `Ptx.Tab.BranchState.addConsts` (C06) -/
+def nextConst (b : Branch) : Nat × Nat :=
+  b.nodes.foldl (fun nx nd =>
+    match nd with
+    | .sent s _ _ =>
+        match s.consts with
+        | [] => nx
+        | c :: cs => let m := constMax c cs; if constLt m nx then nx else constNext m
+    | _ => nx) (0, 0)
+
+/-- `WorldConsts[branch][world]`: the constants of the sentence nodes at that world (no world = world 0) -/
+def constsAt (b : Branch) (w : Nat) : List (Nat × Nat) :=
+  dedupPair (b.nodes.flatMap fun | .sent s _ w' => if w'.getD 0 == w then s.consts else [] | _ => [])
+
+/-- `MaxConsts.is_exceeded(branch, world)` -/
+def constExceeded (mc : Nat) (b : Branch) (w : Option Nat) : Bool := decide (mc < (constsAt b (w.getD 0)).length)
+
+def quantCount : Sent → Nat
+  | .atom _ _ => 0
+  | .pred _ _ => 0
+  | .quant _ _ _ b => 1 + quantCount b
+  | .op1 _ a => quantCount a
+  | .op2 _ a b => quantCount a + quantCount b
+
+/-- `MaxConsts._compute` on the trunk branch -/
+def computeMaxConsts (b : Branch) : Nat :=
+  max 1 b.constList.length * max 1 ((b.nodes.map fun | .sent s _ _ => quantCount s | _ => 0).sum) + 1
+
+/-- is key k an each-constant rule of L (the rules that carry a `NodeConsts` helper) -/
+def isEachConst (L : LogicData) (k : RuleKey) : Bool :=
+  match L.rule? k with
+  | some r => r.witness == .eachConst
+  | none => false
+
+/-- `NodeConsts.after_node_add` of all each-constant rules, for node `nd` (index i) appended to `b` -/
+def updNcs (L : LogicData) (b : Branch) (i : Nat) (nd : Node) (ncs : List ((RuleKey × Nat) × List (Nat × Nat))) :
+    List ((RuleKey × Nat) × List (Nat × Nat)) :=
+  let seen := b.consts
+  let reg := match nodeKey nd with
+    | some k => if isEachConst L k && !(ncs.any fun p => p.1 == (k, i)) then ncs ++ [((k, i), dedupPair seen)] else ncs
+    | none => ncs
+  match nd with
+  | .sent s _ _ =>
+      let newc := dedupPair (s.consts.filter fun c => !seen.contains c)
+      if newc.isEmpty then reg else reg.map fun p => (p.1, p.2 ++ newc.filter fun c => !p.2.contains c)
+  | _ => reg
 
 def world1? : Node → Option Nat
   | .access a _ => some a
@@ -149,6 +214,7 @@ def addNode (L : LogicData) (b : Branch) (h : BranchH) (nd : Node) : BranchH :=
       | .access a c => if h.windex.contains (a, c) then h.windex else h.windex ++ [(a, c)]
       | _ => h.windex
     unserial := updUnserial b' nd h.unserial
+    ncs := updNcs L b i nd h.ncs
     closeT := match h.closeT with
       | some t => some t
       | none => closeHook L b' i nd }
@@ -177,6 +243,7 @@ structure SState where
   hs : List BranchH
   garbages : List (RuleId × List (Nat × Nat)) := []
   maxWorlds : Nat
+  maxConsts : Nat := 0
   deriving Inhabited
 
 def SState.garbage (s : SState) (r : RuleId) : List (Nat × Nat) := aget [] s.garbages r
@@ -200,7 +267,8 @@ def computeMaxWorlds (b : Branch) : Nat :=
 /-- the state after `build_trunk`: one branch; every node went through the `after_node_add` listeners -/
 def SState.init (L : LogicData) (nodes : List Node) : SState :=
   let b : Branch := { nodes := nodes }
-  { tab := [b], hs := [({} : BranchH).grow L { nodes := [] } nodes], maxWorlds := computeMaxWorlds b }
+  { tab := [b], hs := [({} : BranchH).grow L { nodes := [] } nodes], maxWorlds := computeMaxWorlds b,
+    maxConsts := computeMaxConsts b }
 
 /-- the cache as the next `gc()` leaves it: entries not queued for release -/
 def SState.live (s : SState) (r : RuleId) (bi : Nat) : List Nat :=
